@@ -194,6 +194,18 @@ Theorem C03_leaf_hands_incoming_value :
 Proof. split; [exact leaf_handover_in_source|]. split; [exact fwd_state_ERROR_crit|exact upd_state_split]. Qed.
 Print Assumptions C03_leaf_hands_incoming_value.
 
+(* the label and the route of a failure report: the source decides on the Mesos state and on the
+   task being owned and locked only (case list and guard read from handleMessage by the translator
+   failurelabel on every run), so in the model every report of a terminal failure state - any
+   reason code, source, plain update or reconciliation answer after a reconnection, optional fields
+   present or not - is the same fault, to which all theorems above apply *)
+Theorem C03_failure_label_irrelevant :
+  failure_label_irrelevant = true /\
+  (forall l v, In (fl_state l) [1; 2; 3; 7] ->
+     report_fault l true v = FDead [v] /\ report_fault l false v = FDead []).
+Proof. split; [exact failure_label_in_source|exact report_fault_label_free]. Qed.
+Print Assumptions C03_failure_label_irrelevant.
+
 (* the interleaving the harness forces (corpus cases corpus-overtaken-...): the ERROR update of the
    dying critical task is stopped between its two halves, a late RUNNING reply of the same task runs
    to its end, the first goes on: ERROR, run end stamped, although the role reports RUNNING *)
